@@ -70,4 +70,35 @@ theorem minKey_none (l : List TNode) : minKey none l = none ↔ l = [] := by
         | cons m ms ih => simp only [minKey]; split <;> exact ih _
       exact absurd h (this n ns)
     · intro h; cases h
+theorem eq_of_nodup_map {α β} (f : α → β) (l : List α) (hd : (l.map f).Nodup) (a b : α) (ha : a ∈ l) (hb : b ∈ l)
+    (h : f a = f b) : a = b := by
+  induction l with
+  | nil => cases ha
+  | cons x xs ih =>
+    simp only [List.map_cons, List.nodup_cons, List.mem_map, not_exists, not_and] at hd
+    rcases List.mem_cons.mp ha with rfl | ha' <;> rcases List.mem_cons.mp hb with rfl | hb'
+    · rfl
+    · exact absurd h.symm (hd.1 b hb')
+    · exact absurd h (hd.1 a ha')
+    · exact ih hd.2 ha' hb'
+
+/-- the node `pull_force` hands a request to is local-sourced, a member, eligible and the fullest eligible one -/
+theorem C05_transport_pick_sound (srcLocal : Bool) (nodes : List TNode) (id : Nat)
+    (h : transportPick srcLocal nodes = some id) :
+    srcLocal = true ∧ ∃ n ∈ nodes, n.id = id ∧ n.eligible = true ∧ ∀ m ∈ nodes, m.eligible = true → n.key ≤ m.key := by
+  unfold transportPick at h
+  split at h
+  · rename_i hl
+    cases hm : minKey none (nodes.filter TNode.eligible) with
+    | none => simp [hm] at h
+    | some r =>
+      simp [hm] at h
+      have hmem := minKey_mem none _ r hm
+      have hle := (minKey_le none _ r hm).2
+      rcases hmem with hb | hmem
+      · cases hb
+      · obtain ⟨h1, h2⟩ := List.mem_filter.mp hmem
+        exact ⟨hl, r, h1, h, h2, fun m hm' he => hle m (List.mem_filter.mpr ⟨hm', he⟩)⟩
+  · cases h
+
 end Alpen
